@@ -133,6 +133,26 @@ pub fn gen_c13(base_seed: u64, batch: &str, run: u64, rng: &mut Rng) -> Scenario
             _ => Op::UnwindDrop { slot: 0 },
         });
     }
+    // one lent value whose destructor panics (once, and not while its thread is already unwinding):
+    // everything else the instance lent is still released, exactly once. Not combined with make_mut,
+    // which releases earlier values in the middle of a lending call.
+    let mut bomb: Option<i64> = None;
+    let has_mut = threads.iter().flatten().any(|op| matches!(op, Op::LendSession { steps, .. } if steps.iter().any(|s| matches!(s, LendStep::MakeMut { .. } | LendStep::ViaMut { .. }))));
+    if !big && !has_mut && rng.chance(1, 5) {
+        let mut ids = vec![];
+        for op in threads.iter().flatten() {
+            if let Op::LendSession { steps, .. } = op {
+                for s in steps {
+                    if let LendStep::Take { kind: LendKind::MakeRefA | LendKind::MakeRefB | LendKind::ViaHelper, val, n } = s {
+                        ids.extend(*val..*val + *n);
+                    }
+                }
+            }
+        }
+        if !ids.is_empty() {
+            bomb = Some(*rng.pick(&ids) as i64);
+        }
+    }
     Scenario {
         prop: "C13".into(),
         base_seed,
@@ -142,7 +162,9 @@ pub fn gen_c13(base_seed: u64, batch: &str, run: u64, rng: &mut Rng) -> Scenario
         config2: None,
         threads,
         sched: gen_sched(rng, !big),
-        knobs: if big {
+        knobs: if let Some(b) = bomb {
+            vec![("prelude".into(), prelude as i64), ("bomb_val".into(), b)]
+        } else if big {
             // long chains: small thread stacks; the run is executed in a child process because the
             // failure mode is a stack overflow
             vec![("prelude".into(), prelude as i64), ("stack_kb".into(), 256), ("isolated".into(), 1)]
@@ -334,6 +356,7 @@ pub fn check_c13(scn: &Scenario) -> Checked {
         per_slot.values().any(|s| s.len() >= 2)
     });
     p(&mut stats, "preempted_inside_value_chain_push", res.sched.switched[5] + res.sched.switched[11] > 0);
+    p(&mut stats, "destructor_of_a_lent_value_panicked", scn.knob("bomb_val").is_some() && log.ops.iter().any(|o| matches!(&o.result, OpResult::Panicked(m) | OpResult::Info(m) if m.contains("the destructor of lent value"))));
     p(&mut stats, "lent_through_delegation_helper", owner.values().any(|o| o.1 == LendKind::ViaHelper));
     p(&mut stats, "clone_of_the_mock_lent", owner.values().any(|o| o.1 == LendKind::CloneOfSelf));
     p(&mut stats, "thousand_or_more_values", n_values >= 1000);
@@ -370,7 +393,7 @@ pub fn gen_c09(base_seed: u64, batch: &str, run: u64, rng: &mut Rng) -> Scenario
     // sometimes the exit code of report() is itself mocked (mock-std): the instance is then verified
     // when it is dropped at the end of report()
     if cfg!(feature = "stdworld") && rng.chance(1, 6) {
-        cfg.specials.push(Special::MockedReport { success: rng.chance(1, 2) });
+        cfg.specials.push(if rng.chance(1, 4) { Special::MockedReportPanics } else { Special::MockedReport { success: rng.chance(1, 2) } });
     }
     let st = Steer::new(&cfg);
     let n_threads = rng.range(1, 3);
@@ -411,7 +434,9 @@ pub fn gen_c09(base_seed: u64, batch: &str, run: u64, rng: &mut Rng) -> Scenario
                 // drop a clone (sometimes the original)
                 let clones: Vec<u8> = live.iter().copied().filter(|s| *s != 0).collect();
                 let slot = if !clones.is_empty() && rng.chance(5, 6) { *rng.pick(&clones) } else { pick_slot(rng, &live) };
-                threads[t].push(Op::Drop { slot });
+                // now and then the owner is a frame that a (caught) user panic unwinds: nothing is verified
+                // there, and what is released later elsewhere still goes quietly
+                threads[t].push(if rng.chance(1, 8) { Op::UnwindDrop { slot } } else { Op::Drop { slot } });
                 live.retain(|s| *s != slot);
                 original_gone |= slot == 0;
             }
@@ -521,7 +546,7 @@ pub fn check_c09(scn: &Scenario) -> Checked {
                 insts.push(Inst { created_start: o.start_step, created_end: o.end_step, gone: None });
                 events.push((o.end_step, 0, SlotEv::Put { slot: dst, inst: insts.len() - 1 }));
             }
-            Some(Op::Drop { slot }) | Some(Op::Verify { slot }) | Some(Op::Report { slot }) => {
+            Some(Op::Drop { slot }) | Some(Op::Verify { slot }) | Some(Op::Report { slot }) | Some(Op::UnwindDrop { slot }) => {
                 events.push((o.start_step, 1, SlotEv::Take { slot, op: i }));
             }
             Some(Op::NoVerifyInDrop { slot }) if !matches!(o.result, OpResult::Done) => {
@@ -561,7 +586,7 @@ pub fn check_c09(scn: &Scenario) -> Checked {
         // returned, every other slot was filled by a clone operation (the instance's own idea of
         // itself, read through the hook, is only counted when it differs)
         let slot_of = match &op {
-            Op::Drop { slot } | Op::Verify { slot } | Op::Report { slot } | Op::NoVerifyInDrop { slot } => Some(*slot),
+            Op::Drop { slot } | Op::Verify { slot } | Op::Report { slot } | Op::NoVerifyInDrop { slot } | Op::UnwindDrop { slot } => Some(*slot),
             _ => None,
         };
         let is_original = match slot_of {
@@ -575,7 +600,19 @@ pub fn check_c09(scn: &Scenario) -> Checked {
             }
             None => o.original,
         };
+        let report_panics = scn.config.specials.iter().any(|sp| matches!(sp, Special::MockedReportPanics));
         match (&op, is_original) {
+            (Op::Report { .. }, Some(orig)) if report_panics => {
+                // report() is mocked with a panics(..) response: evaluating it is a call like any other -
+                // the mock-induced panic propagates (the instance goes while unwinding: nothing is verified)
+                *stats.probes.entry("mocked_report_panics".into()).or_default() += 1;
+                if !matches!(o.result, OpResult::Panicked(_)) {
+                    violations.push(v("C09", "mocked-report-is-a-call-like-any-other", if orig { "original" } else { "clone" }, format!("Termination::report is mocked with panics(..); report() gave {:?}", o.result)));
+                }
+                if orig {
+                    verified = true;
+                }
+            }
             (Op::CloneInside { via_default, .. }, _) => {
                 *stats.probes.entry(format!("clone_taken_inside_an_answer_function{}", if *via_default { "_through_a_default_body" } else { "" })).or_default() += 1;
                 if !matches!(o.result, OpResult::Done) {
@@ -611,7 +648,12 @@ pub fn check_c09(scn: &Scenario) -> Checked {
                     violations.push(v("C09", "dropping-a-clone-is-silent", "clone-storm", format!("making and dropping {n} clones in a row: {:?}", o.result)));
                 }
             }
-            (Op::Drop { .. }, Some(false)) => {
+            (Op::UnwindDrop { .. }, Some(true)) => {
+                // released while its owner unwinds: no verification takes place (C11 decides that part)
+                *stats.probes.entry("original_released_by_an_unwinding_frame".into()).or_default() += 1;
+                verified = true;
+            }
+            (Op::Drop { .. } | Op::UnwindDrop { .. }, Some(false)) => {
                 if !matches!(o.result, OpResult::Quiet) {
                     violations.push(v("C09", "dropping-a-clone-is-silent", "drop-clone", format!("dropping a clone: {:?}", o.result)));
                 }
